@@ -1132,7 +1132,7 @@ func (fx *FnExec) localByName(name string, loop *ssa.BasicBlock) ssa.Value {
 				}
 			}
 			id, ok := d.Expr.(*ast.Ident)
-			if !ok || id.Name != name {
+			if !ok || !fx.sameName(id.Name, name) {
 				continue
 			}
 			if _, isConst := d.X.(*ssa.Const); isConst {
@@ -1436,7 +1436,7 @@ func (fx *FnExec) evalCallC(x *ast.CallExpr, env *evalEnv) (cval, error) {
 					continue
 				}
 				di, isI := d.Expr.(*ast.Ident)
-				if !isI || di.Name != id.Name {
+				if !isI || !fx.sameName(di.Name, id.Name) {
 					continue
 				}
 				if _, isConst := d.X.(*ssa.Const); isConst || seen[d.X] {
